@@ -29,7 +29,13 @@ pub enum Op {
     Unregister { i: usize, case_var: u8 },
     UnregisterUnknown,
     /// A peer claims the name being probed for service i (on one interface or on all).
-    Conflict { i: usize, only_if: Option<usize> },
+    Conflict {
+        i: usize,
+        only_if: Option<usize>,
+        /// the conflicting response also claims the service's host name with another address
+        #[serde(default)]
+        host: bool,
+    },
     Advance { ms: u64 },
     /// PTR query for the type of service i on every interface.
     Query { i: usize },
@@ -159,7 +165,7 @@ pub fn check(case: &Case, ctx: &mut CaseCtx) {
             Op::UnregisterUnknown => {
                 let _ = w.daemons[di].unregister("nobody._http._tcp.local.");
             }
-            Op::Conflict { i, only_if } => {
+            Op::Conflict { i, only_if, host } => {
                 let i = *i % n;
                 // Only while the one and only registration since the last unregister is still
                 // unannounced: a conflict that hits the left-over probe of a superseded
@@ -187,6 +193,20 @@ pub fn check(case: &Case, ctx: &mut CaseCtx) {
                         }
                     }
                 }
+                // ... and the host name it is being probed with (the SRV target in the last probe)
+                let mut host_name: Option<Name> = None;
+                for e in w.daemons[di].log.iter().rev() {
+                    if let Ev::Tx(tx) = &e.ev {
+                        if let Some(m) = &tx.msg {
+                            if !m.is_response() {
+                                if let Some(t) = m.authorities.iter().filter(|r| r.name == name).find_map(|r| wire::srv_of(r).map(|(_, h)| h.clone())) {
+                                    host_name = Some(t);
+                                    break;
+                                }
+                            }
+                        }
+                    }
+                }
                 let rec = Record {
                     name,
                     rtype: T_SRV,
@@ -208,7 +228,12 @@ pub fn check(case: &Case, ctx: &mut CaseCtx) {
                     } else {
                         SocketAddr::new(IpAddr::V6(subnet_v6(k, 99)), MDNS_PORT)
                     };
-                    w.daemons[di].inject(if_index(k), src, peer::response(vec![rec.clone()], vec![]));
+                    let mut recs = vec![rec.clone()];
+                    if let (true, Some(h)) = (*host, host_name.as_ref()) {
+                        let a = if case.ifs[k].v4 { IpAddr::V4(subnet_v4(k, 98)) } else { IpAddr::V6(subnet_v6(k, 98)) };
+                        recs.push(peer::addr_rec(h, a, 120, true));
+                    }
+                    w.daemons[di].inject(if_index(k), src, peer::response(recs, vec![]));
                 }
             }
             Op::Advance { ms } => {
@@ -512,7 +537,8 @@ pub fn strategy() -> BoxedStrategy<Case> {
         4 => (0usize..3, 0u8..3).prop_map(|(i, ver)| Op::Register { i, ver }),
         4 => (0usize..3, 0u8..4).prop_map(|(i, case_var)| Op::Unregister { i, case_var }),
         1 => Just(Op::UnregisterUnknown),
-        2 => (0usize..3, proptest::option::weighted(0.3, 0usize..3)).prop_map(|(i, only_if)| Op::Conflict { i, only_if }),
+        2 => (0usize..3, proptest::option::weighted(0.3, 0usize..3)).prop_map(|(i, only_if)| Op::Conflict { i, only_if, host: false }),
+        2 => (0usize..3, proptest::option::weighted(0.3, 0usize..3)).prop_map(|(i, only_if)| Op::Conflict { i, only_if, host: true }),
         8 => prop_oneof![1 => Just(0u64), 1 => Just(100), 1 => Just(120), 1 => Just(250), 2 => Just(760), 3 => Just(1000), 3 => Just(2000), 2 => Just(5500), 2 => 0u64..2500].prop_map(|ms| Op::Advance { ms }),
         2 => (0usize..3).prop_map(|i| Op::Query { i }),
         1 => Just(Op::Shutdown),
